@@ -876,10 +876,17 @@ def mon_C18(ctx):
     if acts[-1]['tag'] != 'end' or any(a['tag'] == 'end' for a in acts[:-1]):
         ctx.bad('end-action-misplaced', TRUE)
     prev = None
+    restart_pending = False
     for A in acts:
         cs = A['cstate']
         if prev is not None:
             pcs = prev['cstate']
+            if ctx.rule == 'qpq' and prev['tag'] == 'round' and restart_pending:
+                # QPQ's documented restart: right after the 'round' action that follows an exclusion every elected candidate
+                # is hopeful again (implied by the logged exclusion); elections in this round are status changes from hopeful
+                pcs = {c: (dict(s_, state='hopeful') if s_['state'] == 'elected' else s_) for c, s_ in pcs.items()}
+                restart_pending = False
+                ctx.reach('qpq-restart-implied')
             st_changed = [c for c in cs if cs[c]['state'] != pcs[c]['state']]
             pend_cleared = [c for c in cs if pcs[c].get('pending') and not cs[c].get('pending')]
             named = None
@@ -896,9 +903,13 @@ def mon_C18(ctx):
                     ctx.bad('elect-names-candidate-whose-status-does-not-change', TRUE)
             extra = [c for c in st_changed if c != named]
             if ctx.rule == 'qpq':
+                # after the virtual restart, candidates elected earlier and not yet re-elected in this round show as
+                # hopeful(virtual) vs elected(snapshot lags)?  no: the snapshot is taken after the real un-election, so it shows hopeful
                 extra = [c for c in extra if not (pcs[c]['state'] == 'elected' and cs[c]['state'] == 'hopeful')]
             if extra:
                 ctx.bad('unlisted-status-change:%s' % A['tag'], TRUE)
+            if ctx.rule == 'qpq' and A['tag'] == 'defeat':
+                restart_pending = True
         else:
             # the first snapshot: everybody not withdrawn is hopeful (nothing happened before the record starts)
             for c, s in cs.items():
